@@ -63,6 +63,7 @@ fn apply(mut b: Builder, calls: &Value, remote: SocketAddr, local: SocketAddr) -
                 }
             },
             "relay" => b.relay(),
+            "verify_version" => b.verify_version(arg.as_bool().unwrap_or(true)),
             "compressed" => b.compressed(),
             "uncompressed" => b.uncompressed(),
             other => return Err(format!("unknown setter {other}")),
@@ -116,9 +117,83 @@ fn tcp_capture(connect: impl FnOnce(SocketAddr) -> Result<(), String>) -> Result
     r.map(|_| got)
 }
 
+/// C09 through the builder: connect to a loopback fake LFS that answers the ISI with an IS_VER of InSim version 8, read once
+/// from the connection the builder returned and say what came back ("version_err" / "pkt" / ...)
+fn gate_probe(proto: &str, flavor: &str, calls: &Value, mode: &str, local: SocketAddr) -> Result<String, String> {
+    use insim::{insim::Ver, Packet};
+    let ver = crate::frames::try_encode(mode, &Packet::Ver(Ver { reqi: RequestId(1), insimver: 8, product: "S3".into(), ..Default::default() }))?;
+    let classify = |r: insim::Result<Packet>| -> String {
+        match r {
+            Ok(Packet::Ver(_)) => "pkt".into(),
+            Ok(_) => "other".into(),
+            Err(insim::Error::IncompatibleVersion(8)) => "version_err".into(),
+            Err(e) => format!("error: {e}"),
+        }
+    };
+    if proto == "tcp" {
+        let listener = TcpListener::bind("127.0.0.1:0").map_err(|e| e.to_string())?;
+        let addr = listener.local_addr().unwrap();
+        let ver2 = ver.clone();
+        let h = std::thread::spawn(move || {
+            if let Ok((mut s, _)) = listener.accept() {
+                let _ = s.set_read_timeout(Some(Duration::from_millis(2500)));
+                let mut isi = [0u8; 44];
+                let _ = s.read_exact(&mut isi);
+                let _ = s.write_all(&ver2);
+                std::thread::sleep(Duration::from_millis(40));
+            }
+        });
+        let bld = apply(Builder::default().tcp(addr), calls, addr, local)?;
+        let out = if flavor == "blocking" {
+            let mut f = bld.connect_blocking().map_err(|e| format!("connect_blocking: {e}"))?;
+            classify(f.read())
+        } else {
+            let rt = tokio::runtime::Builder::new_current_thread().enable_all().build().unwrap();
+            rt.block_on(async {
+                let mut f = bld.connect_async().await.map_err(|e| format!("connect_async: {e}"))?;
+                Ok::<String, String>(match tokio::time::timeout(Duration::from_millis(2500), f.read()).await {
+                    Ok(r) => classify(r),
+                    Err(_) => "timeout".into(),
+                })
+            })?
+        };
+        let _ = h.join();
+        Ok(out)
+    } else {
+        let peer = UdpSocket::bind("127.0.0.1:0").unwrap();
+        let _ = peer.set_read_timeout(Some(Duration::from_millis(2500)));
+        let addr = peer.local_addr().unwrap();
+        let ver2 = ver.clone();
+        let h = std::thread::spawn(move || {
+            let mut buf = [0u8; 2048];
+            if let Ok((_, from)) = peer.recv_from(&mut buf) {
+                let _ = peer.send_to(&ver2, from);
+            }
+        });
+        let bld = apply(Builder::default(), calls, addr, local)?;
+        let out = if flavor == "blocking" {
+            let mut f = bld.connect_blocking().map_err(|e| format!("connect_blocking: {e}"))?;
+            classify(f.read())
+        } else {
+            let rt = tokio::runtime::Builder::new_current_thread().enable_all().build().unwrap();
+            rt.block_on(async {
+                let mut f = bld.connect_async().await.map_err(|e| format!("connect_async: {e}"))?;
+                Ok::<String, String>(match tokio::time::timeout(Duration::from_millis(2500), f.read()).await {
+                    Ok(r) => classify(r),
+                    Err(_) => "timeout".into(),
+                })
+            })?
+        };
+        let _ = h.join();
+        Ok(out)
+    }
+}
+
 pub fn cmd_builder_replay(a: &HashMap<String, String>) -> i32 {
     let path = a.get("in").expect("--in");
     let connect_stride: usize = a.get("connect-stride").and_then(|s| s.parse().ok()).unwrap_or(1).max(1);
+    let gate = a.get("gate").map(|s| s == "1").unwrap_or(false);
+    let handshake = a.get("handshake").map(|s| s != "0").unwrap_or(true);
     let out = std::io::stdout();
     let mut out = out.lock();
     let (mut n, mut bad, mut connects) = (0u64, 0u64, 0u64);
@@ -147,7 +222,7 @@ pub fn cmd_builder_replay(a: &HashMap<String, String>) -> i32 {
         }
         // 2. the bytes on the wire
         let proto = v["proto"].as_str().unwrap_or("tcp");
-        if problems.is_empty() && proto != "relay" && lineno % connect_stride == 0 {
+        if handshake && problems.is_empty() && proto != "relay" && lineno % connect_stride == 0 {
             let want = expected_bytes(&v, local_port);
             for flavor in ["blocking", "tokio"] {
                 connects += 1;
@@ -219,6 +294,20 @@ pub fn cmd_builder_replay(a: &HashMap<String, String>) -> i32 {
                             problems.push(format!("{proto}/{flavor}: the peer received {:?}, the handshake must be exactly {:?}", g, want));
                         }
                     },
+                }
+            }
+        }
+        // 3. the version gate of the connection the builder returns (C09)
+        if gate && problems.is_empty() && proto != "relay" && lineno % connect_stride == 0 && v.get("gate").is_some() {
+            let want = if v["gate"].as_bool().unwrap_or(true) { "version_err" } else { "pkt" };
+            let mode = v["mode"].as_str().unwrap_or("C");
+            for flavor in ["blocking", "tokio"] {
+                connects += 1;
+                match std::panic::catch_unwind(std::panic::AssertUnwindSafe(|| gate_probe(proto, flavor, &v["calls"], mode, local))) {
+                    Ok(Ok(got)) if got == want => {},
+                    Ok(Ok(got)) => problems.push(format!("gate:{proto}/{flavor}: an IS_VER of version 8 came back as {got} where the configured gate gives {want}")),
+                    Ok(Err(e)) => problems.push(format!("gate:{proto}/{flavor}: {e}")),
+                    Err(_) => problems.push(format!("gate:{proto}/{flavor}: panicked")),
                 }
             }
         }
